@@ -6,6 +6,7 @@ from .. import astq, spec
 from .. import sym as S
 from ..cfg import CFG
 from ..dataflow import containing_node
+from ..report import MISSING
 from ..model import AnalysisError, FunctionInfo
 from ..symeval import SymEval
 from . import cli_common as cc
@@ -84,7 +85,7 @@ def tables(ctx, R="R-C11-dispatch-tables"):
     cfgf = ast.Module(body=final, type_ignores=[])
     raises = [n for n in ast.walk(cfgf) if isinstance(n, ast.Raise)]
     ok = bool(final) and isinstance(final[-1], ast.Raise) and astq.raise_type(prog, f, final[-1]) == "ValueError"
-    ctx.check(ok, R, f, final[-1] if final else ch[0], "an unknown force_as raises ValueError", "the dispatch chain does not end in `raise ValueError`")
+    ctx.check(ok, R, f, final[-1] if final else MISSING(ch[0]), "an unknown force_as raises ValueError", "the dispatch chain does not end in `raise ValueError`")
     avail = None
     for n in ast.walk(cfgf):
         if isinstance(n, ast.Assign) and astq.is_name(n.targets[0], "avail_force_as"):
@@ -109,7 +110,7 @@ def tables(ctx, R="R-C11-dispatch-tables"):
     want = set(spec.FORCE_AS)
     ctx.check(handled == want and sf_handled, R, f, ch[0], "read_signal dispatches exactly the documented container names (+ soundfile types)",
               "dispatch handles %s; documented: %s (missing %s, extra %s)" % (sorted(handled), sorted(want), sorted(want - handled), sorted(handled - want)))
-    ctx.check(avail[0] == want and avail[1], R, f, final[0] if final else f.node, "the error message lists exactly the handled names",
+    ctx.check(avail[0] == want and avail[1], R, f, final[0] if final else MISSING(f.node), "the error message lists exactly the handled names",
               "avail_force_as lists %s" % sorted(avail[0]))
     ctx.check(choices == want and ch_sf, R, tool, decl, "--force-as offers exactly the names read_signal handles",
               "--force-as choices are %s (missing %s, extra %s)" % (sorted(choices), sorted(want - choices), sorted(choices - want)))
@@ -141,7 +142,7 @@ def tables(ctx, R="R-C11-dispatch-tables"):
     rs = astq.raises_of(g)
     ok = len(rs) == 1 and astq.raise_type(prog, g, rs[0]) == "IOError"
     cfg = CFG(g.node)
-    ctx.check(ok, R, g, rs[0] if rs else g.node, "a name without a recognised suffix raises IOError", "unrecognised suffix raises %s" % [astq.raise_type(prog, g, r) for r in rs])
+    ctx.check(ok, R, g, rs[0] if rs else MISSING(g.node), "a name without a recognised suffix raises IOError", "unrecognised suffix raises %s" % [astq.raise_type(prog, g, r) for r in rs])
     # each branch calls its reader with (rfilename, dtype, key, **kwargs)
     n_b = 0
     for l, s_, body in branches:
@@ -159,7 +160,7 @@ def stream_guards(ctx, R="R-C11-stream-guards"):
     f = prog.func("util.read_signal")
     body = [s for s in f.node.body if not (isinstance(s, ast.Expr) and isinstance(s.value, ast.Constant))]
     first = body[0]
-    ok = isinstance(first, ast.If) and astq.text(first.test).replace(" ", "") == "notisinstance(rfilename,str)"
+    ok = isinstance(first, ast.If) and astq.eq_text(first.test, "notisinstance(rfilename,str)")
     ctx.check(ok, R, f, first, "streams are recognised first (not isinstance(rfilename, str))", "read_signal does not begin with the stream test")
     if not ok:
         return
@@ -173,8 +174,8 @@ def stream_guards(ctx, R="R-C11-stream-guards"):
     kk = [k for k in conds if k.startswith("force_asin") and "'kaldi'" in k and "'table'" in k]
     ctx.check(bool(kk) and conds[kk[0]] == "ValueError", R, f, first, "a stream with a Kaldi kind raises ValueError", "stream with kaldi kinds: %s" % conds)
     # inference only for str without force_as
-    ok = len(first.orelse) == 1 and isinstance(first.orelse[0], ast.If) and astq.text(first.orelse[0].test).replace(" ", "") == "force_asisNone" and \
-        astq.text(first.orelse[0].body[0]).replace(" ", "") == "force_as=_infer_force_as_from_rfilename(rfilename)"
+    ok = len(first.orelse) == 1 and isinstance(first.orelse[0], ast.If) and astq.eq_text(first.orelse[0].test, "force_asisNone") and \
+        astq.eq_text(first.orelse[0].body[0], "force_as=_infer_force_as_from_rfilename(rfilename)")
     ctx.check(ok, R, f, first, "the type is inferred from the name only when force_as is not given")
     cfg = CFG(f.node)
     dom = cfg.dominators()
@@ -283,7 +284,7 @@ def readers(ctx, R="R-C11-readers"):
     tr = [t for t in g.body_nodes() if isinstance(t, ast.Try)]
     ok = len(tr) == 1 and "_scipy_io_read_signal" in astq.text(tr[0].body[0]) and len(tr[0].handlers) == 1 and \
         prog.dotted(tr[0].handlers[0].type) == "ImportError" and "_wave_read_signal" in astq.text(tr[0].handlers[0].body[0])
-    ctx.check(ok, R, g, tr[0] if tr else g.node, "wav: scipy's reader, falling back to the wave module only on ImportError")
+    ctx.check(ok, R, g, tr[0] if tr else MISSING(g.node), "wav: scipy's reader, falling back to the wave module only on ImportError")
 
 
 def wds(ctx, R="R-C11-wds"):
@@ -291,7 +292,7 @@ def wds(ctx, R="R-C11-wds"):
     f = prog.func("util.wds_read_signal")
     body = [s for s in f.node.body if not (isinstance(s, ast.Expr) and isinstance(s.value, ast.Constant))]
     ok = len(body) == 1 and isinstance(body[0], ast.Try)
-    ctx.check(ok, R, f, body[0] if body else f.node, "the whole body of wds_read_signal is one try block",
+    ctx.check(ok, R, f, body[0] if body else MISSING(f.node), "the whole body of wds_read_signal is one try block",
               "wds_read_signal has statements outside its try block; they can raise")
     if not ok:
         return
@@ -300,7 +301,7 @@ def wds(ctx, R="R-C11-wds"):
     ctx.check(catch_all, R, f, t, "a handler catches everything", "no catch-all handler: some exceptions escape")
     for h in t.handlers:
         ok = len(h.body) == 1 and isinstance(h.body[0], ast.Return) and (h.body[0].value is None or (isinstance(h.body[0].value, ast.Constant) and h.body[0].value.value is None))
-        ctx.check(ok, R, f, h.body[0] if h.body else t, "the handler returns None and raises nothing", "handler body is %s" % [astq.text(s) for s in h.body])
+        ctx.check(ok, R, f, h.body[0] if h.body else MISSING(t), "the handler returns None and raises nothing", "handler body is %s" % [astq.text(s) for s in h.body])
     ctx.check(not t.finalbody and not t.orelse, R, f, t, "no else/finally clause that could raise")
     txt = astq.text(ast.Module(body=t.body, type_ignores=[])).replace(" ", "")
     ctx.check("force_as=_infer_force_as_from_rfilename(key)" in txt and "returnread_signal(io.BytesIO(data),force_as=force_as)" in txt, R, f, t,
